@@ -156,6 +156,10 @@ def add_maybe_exponent_stripped(x, y):
 
     # perform branchless for jit etc.
     e = max(xe, ye)
+    if e == float("-inf"):
+        # both terms are exactly zero, (e.g. as found by ``check_zero``),
+        # n.b. ``10 ** (-inf - -inf)`` would be nan
+        return (xm + ym, e)
     m = xm * 10 ** (xe - e) + ym * 10 ** (ye - e)
 
     return (m, e)
@@ -3365,9 +3369,22 @@ class ContractionTree:
         if isinstance(next(iter(chunks.values())), tuple):
             # have stripped exponents, need to scale to largest
             emax = max(v[1] for v in chunks.values())
+            if emax == float("-inf"):
+                # every chunk is exactly zero
+                return 0.0, emax
+            # chunks found to be exactly zero by ``check_zero`` are scalars
+            zero_keys = {
+                k for k, (_, ei) in chunks.items() if ei == float("-inf")
+            }
             chunks = {
                 k: mi * 10 ** (ei - emax) for k, (mi, ei) in chunks.items()
             }
+            if zero_keys:
+                template = next(
+                    c for k, c in chunks.items() if k not in zero_keys
+                )
+                for k in zero_keys:
+                    chunks[k] = do("zeros_like", template, like=backend)
         else:
             emax = None
 
